@@ -31,12 +31,12 @@ def run(pid, tier, seed, replay):
     # ---- proofs over the regenerated model
     proof_ok = ck.proof_step(extra_targets=["Model/C11Corr.vo"]) if translated else False
     # ---- build + run the implementation
-    ok, out, dt = vlib.cargo_build("h_physplan")
+    ok, out, dt = vlib.cargo_build("h_physplan", bin="c11")
     ck.log("cargo build h_physplan: ok=%s (%.0fs)" % (ok, dt))
     if not ok:
         ck.problem("tie", "harness build failed:\n" + out[-3000:])
         return ck.finish()
-    rc, so, se, dt = vlib.run_bin("h_physplan", ["c11", "--seed", seed, "--n", n])
+    rc, so, se, dt = vlib.run_bin("c11", ["--seed", seed, "--n", n])
     cases = vlib.jsonl(so)
     if rc != 0:
         ck.problem("tie", "harness run ended abnormally rc=%d: %s" % (rc, se[-1500:]))
